@@ -44,7 +44,7 @@ def variants_for(pid, i, model, tier):
     m = MODELS[model]
     sc = m["scales"]
     base = dict(scale=sc[i % len(sc)], seed=i, req_alg=ALGS[i % 3], resp_alg=ALGS[(i // 3) % 3],
-                cred_variant=(i // 2) % 4, seal=("ext" if i % 2 == 0 else "lib"),
+                cred_variant=(i // 2) % 5, seal=("ext" if i % 2 == 0 else "lib"),
                 other_tid=("outstanding" if (i // 2) % 2 == 0 else "fresh"))
     if i % 4 == 1:
         base["remote_addr"] = "a6"      # an agent associated with one peer; destinations are still per send
@@ -205,7 +205,9 @@ def rand_history(rng, hid, transport, nsteps, ntids=8, maxrto=60000, us=False, c
         elif r < 0.45:
             sealed = rng.choice([False, False, "sha1", "sha256", "both"])
             st = {"a": "send", "cls": "request", "tid": t, "to": rng.choice(addrs), "sealed": sealed,
-                  "pay": rng.choice(["p1", "p2", "p3"])}
+                  "pay": rng.choice(["p1", "p2", "p3"]) if rng.random() > 0.03 else "pbig"}
+            if st["pay"] == "pbig":
+                st["sealed"] = False
             if rng.random() < 0.12:
                 st["back"] = rng.choice([1, 300, 450, rng.randint(1, 2000)]) * tmul    # sampled before the last poll's instant
             steps.append(st)
@@ -244,7 +246,7 @@ def rand_history(rng, hid, transport, nsteps, ntids=8, maxrto=60000, us=False, c
         steps = fixed
     return {"id": hid, "seed": rng.randrange(1 << 30), "transport": transport, "scale": 1, "probe": True, "us": us,
             "ntids": ntids, "steps": steps, "req_alg": rng.choice(ALGS), "resp_alg": rng.choice(ALGS),
-            "cred_variant": rng.randrange(4)}
+            "cred_variant": rng.randrange(5)}
 
 
 def _obs_fields(o):
@@ -628,7 +630,7 @@ def exchange_binding(pid, tier, seed, wd, rep):
     for i, w in enumerate(words):
         sc = {"id": "ex/%d" % i, "seed": i + seed, "transport": "udp", "scale": [1, 500, 60000][i % 3], "probe": True, "ntids": 4,
               "install": [1, 2, 1], "exchange": True, "max_flight": 2, "server_key": "k1", "steps": [ex_key_to_step(k) for k in w],
-              "req_alg": ALGS[i % 3], "resp_alg": ALGS[(i // 3) % 3], "cred_variant": (i // 2) % 4, "seal": "ext" if i % 2 else "lib"}
+              "req_alg": ALGS[i % 3], "resp_alg": ALGS[(i // 3) % 3], "cred_variant": (i // 2) % 5, "seal": "ext" if i % 2 else "lib"}
         scripts.append(sc)
     out = run_scripts(scripts, wd, "exchange")
     steps = mism = 0
